@@ -70,6 +70,7 @@ func runC09(c *Ctx) Info {
 	nAlloc := c.allocRule(eng, funcs)
 	c.C.Floor("ALLOC-READBUF", nAlloc-c.controlCount("ALLOC-READBUF"), 3)
 	c.C.ExpectControl("ALLOC-READBUF")
+	c.C.ExpectControl("ALLOC-EXP")
 	if c.Dump == "advance" {
 		var ks []string
 		for fn, a := range adv.sum {
@@ -83,11 +84,11 @@ func runC09(c *Ctx) Info {
 		}
 	}
 	return Info{
-		Explanation:  "Rule PROGRESS over every natural loop of every function reachable from a decoding entry point: proved when each back edge strictly moves an integer variable that an exit test reads (ranking argument; increments evaluated with engine E2 through the merges of the loop body), or when every cycle passes a cursor primitive (io.ReadFull / Reader.ReadByte / Parser reads / bit readers) whose bottom-up summary consumes at least one unit on every non-error return. Violated only on the witness shape: a cycle that leaves every variable read by the exit tests exactly unchanged and calls no cursor primitive. The time and memory budgets of the statement are quantities and are not decided.",
-		DoesNotCover: "the 10 s / 512 MiB + 64*S budgets; allocation sizes (only negative/wrapped sizes under C08 MAKE); loops whose progress is relational",
+		Explanation:  "Rule PROGRESS over every natural loop of every function reachable from a decoding entry point: proved when each back edge strictly moves an integer variable that an exit test reads (ranking argument; increments evaluated with engine E2 through the merges of the loop body), or when every cycle passes a cursor primitive (io.ReadFull / Reader.ReadByte / Parser reads / bit readers) whose bottom-up summary consumes at least one unit on every non-error return. Violated only on the witness shape: a cycle that leaves every variable read by the exit tests exactly unchanged and calls no cursor primitive. Rule ALLOC-READBUF over every make([]T, n) with a stream-derived n whose result is filled from the stream (io.ReadFull / Read / copy, followed through library helpers): discharged when n*sizeof(T) is at most 64 MiB in the interval domain (width of the length field, guards) or a dominating comparison relates the size to a len(...) term; violated only on the witness shape: a wide stream scalar enters the size with positive sign, every value of it is producible (exact) or it arrives untouched (raw), and no dominating branch bounds it, or the size, from above (guards are read with their polarity: an upper bound on a subtracted term is not a bound on the size); everything else out of scope. The time and memory budgets of the statement are quantities and are not decided.",
+		DoesNotCover: "the 10 s / 512 MiB + 64*S budgets; allocations that are not read buffers (sample planes, coefficient arrays, tables: proportional to the declared geometry or to internal quantities; negative / wrapped / exponential sizes are under C08 MAKE); loops whose progress is relational",
 		Trusted:      commonTrusted,
 		Assumptions:  rangeAssumptions,
-		Extra:        map[string]any{"loops": nLoops, "proved": nProved, "functions": len(funcs)},
+		Extra:        map[string]any{"loops": nLoops, "proved": nProved, "functions": len(funcs), "read_buffers": nAlloc},
 	}
 }
 
